@@ -2,6 +2,7 @@ package c11
 
 import (
 	"fmt"
+	"math"
 	"strconv"
 	"strings"
 )
@@ -765,8 +766,8 @@ func (m *model) finish(p, q int, open []int, start, W, y float64, last bool) Lin
 	type ext struct{ a, d float64 }
 	sub := map[int]*ext{0: {m.boxes[0].a, m.boxes[0].d}}
 	var subOrder []int
-	var vaAtoms []float64   // heights of the top/bottom aligned atomic inlines
-	var vaAtomRoots []int   // ... and the aligned subtree of the box holding them (0: not nested)
+	var vaAtoms []float64 // heights of the top/bottom aligned atomic inlines
+	var vaAtomRoots []int // ... and the aligned subtree of the box holding them (0: not nested)
 	seen := map[int]bool{}
 	touch := func(b int) {
 		for ; b > 0 && !seen[b]; b = m.boxes[b].parent {
@@ -774,7 +775,9 @@ func (m *model) finish(p, q int, open []int, start, W, y float64, last bool) Lin
 			r := m.boxes[b].root
 			e := sub[r]
 			if e == nil {
-				e = &ext{}
+				// (extents start below any value: with a line-height smaller than the font size the
+				// box can lie entirely above its baseline, d < 0)
+				e = &ext{math.Inf(-1), math.Inf(-1)}
 				sub[r] = e
 				subOrder = append(subOrder, r)
 			}
@@ -829,9 +832,16 @@ func (m *model) finish(p, q int, open []int, start, W, y float64, last bool) Lin
 			if it.va != "" {
 				vaAtoms = append(vaAtoms, it.h)
 				vaAtomRoots = append(vaAtomRoots, m.boxes[it.box].root)
-			} else if e := sub[fr.sub]; it.h > e.a {
-				// the bottom margin edge of an empty inline-block sits on the baseline
-				e.a = it.h
+			} else {
+				// the bottom margin edge of an empty inline-block sits on the baseline: it reaches
+				// it.h above it and 0 below it
+				e := sub[fr.sub]
+				if it.h > e.a {
+					e.a = it.h
+				}
+				if e.d < 0 {
+					e.d = 0
+				}
 			}
 			ln.Frags = append(ln.Frags, fr)
 			x += it.w
